@@ -37,6 +37,9 @@ CURATED_MOL = {
     # hydrogens that are not terminal: two fragments that differ only behind a bridging hydrogen
     "NaHF+NaHCl": (["Na", "H", "F", "Na", "H", "Cl"], [(0, 1), (1, 2), (3, 4), (4, 5)]),
     "LiHBeF+LiHBeCl": (["Li", "H", "Be", "F", "Li", "H", "Be", "Cl"], [(0, 1), (1, 2), (2, 3), (4, 5), (5, 6), (6, 7)]),
+    # periodic chain F-(S-Se-Te)6: every initial class is small (<= 6) but refinement needs many rounds (one per
+    # repeat unit), so a bound on the number of rounds derived from the largest class is too small here
+    "F(SSeTe)6": (["F"] + ["S", "Se", "Te"] * 6, [(i, i + 1) for i in range(18)]),
 }
 
 
@@ -73,7 +76,7 @@ THOROUGH_LABELS = {
 }
 
 
-def pipeline_jobs(factory, tier, *, relists=("atoms", "bonds", "labels", "recanon", "recanon-scrambled", "keys"), elem=True, curated=True, extra=None,
+def pipeline_jobs(factory, tier, *, relists=("atoms", "bonds", "labels", "recanon", "recanon-scrambled", "recanon-edited", "keys"), elem=True, curated=True, extra=None,
                   module="harness.pipeline", scale=1.0, km_q=2, kr_q=1, km_t=3, kr_t=2, curated_relist="atoms",
                   n_max_q=4, n_max_t=5):
     """Standard strata of DESIGN §5 for a graph-level harness."""
@@ -124,7 +127,7 @@ def pipeline_jobs(factory, tier, *, relists=("atoms", "bonds", "labels", "recano
                 for r in ("labels", "recanon"):
                     js.append(job(module, factory, f"S-curated/{name}/{r}", dict(par, relist=r, K_m=min(par["K_m"], 1), K_r=0), max_seconds=ms))
         for name, (els, bonds) in CURATED_MOL.items():
-            if not thorough and name in ("chloroethanol", "LiHBeF+LiHBeCl") and factory not in ("c13",):
+            if not thorough and name in ("chloroethanol", "LiHBeF+LiHBeCl", "F(SSeTe)6") and factory not in ("c13",):
                 continue
             par = dict(extra, n=len(els), elements=els, bonds=[list(b) for b in bonds], K_m=1, K_r=1 if thorough else 0)
             if curated_relist is not None:
@@ -138,11 +141,11 @@ def pipeline_jobs(factory, tier, *, relists=("atoms", "bonds", "labels", "recano
 
 def std_bounds(tier, relist=True):
     t = tier == "thorough"
-    b = {"atoms": "all labelled simple graphs on n <= %d atoms; curated skeletons (C6 ring, prism, K3,3, 2xC3, star K1,5, P8, cubane, C4+C4, C8 ring%s); curated molecules (ethanol, acetonitrile, Na-H-F + Na-H-Cl with bridging hydrogens; thorough and C13: 2-chloroethanol, Li-H-Be-F + Li-H-Be-Cl) with one label at a solver-chosen atom" % (5 if t else 4, ", Petersen" if t else ""),
+    b = {"atoms": "all labelled simple graphs on n <= %d atoms; curated skeletons (C6 ring, prism, K3,3, 2xC3, star K1,5, P8, cubane, C4+C4, C8 ring%s); curated molecules (ethanol, acetonitrile, Na-H-F + Na-H-Cl with bridging hydrogens; thorough and C13: 2-chloroethanol, Li-H-Be-F + Li-H-Be-Cl, the periodic chain F-(S-Se-Te)6 of 19 atoms) with one label at a solver-chosen atom" % (5 if t else 4, ", Petersen" if t else ""),
          "labels": "at most K_m mass and K_r radical labels at solver-chosen atoms (%s; per-stratum values in `strata`), values symbolic integers >= 1, unbounded above" % ("thorough: K_m<=3, K_r<=2 up to 4 atoms, K_m<=2, K_r<=1 at 5 atoms for listing transpositions; fewer for the other description kinds: " + str(THOROUGH_LABELS) if t else "quick: K_m<=2, K_r<=1 for listing transpositions, K_m<=1, K_r<=1 otherwise"),
          "alphabets": {"S-shape": ["C"], "S-elem6 (n<=%d)" % (3 if t else 2): SIGMA_Q, "S-elem4 (n<=%d)" % (4 if t else 3): SIGMA_T4}}
     if relist:
-        b["relistings_of_graph_objects"] = "keys: the declared indices (dict keys handed to graph_from_molecule) of two adjacent listing positions exchanged, so that indices do not ascend in listing order; labels: two solver-chosen adjacent labels exchanged without changing the node iteration order (nx.relabel_nodes); recanon: the canonical graph itself fed back in (its listing order differs from its numbering); recanon-scrambled: the canonical graph renumbered with nx.relabel_nodes and fed back in"
+        b["relistings_of_graph_objects"] = "keys: the declared indices (dict keys handed to graph_from_molecule) of two adjacent listing positions exchanged, so that indices do not ascend in listing order; labels: two solver-chosen adjacent labels exchanged without changing the node iteration order (nx.relabel_nodes); recanon: the canonical graph itself fed back in (its listing order differs from its numbering); recanon-scrambled: the canonical graph renumbered with nx.relabel_nodes and fed back in; recanon-edited: the molecule plus a pendant atom at a solver-chosen position is canonicalized, the pendant atom is deleted from the result and the edited graph (stale partition values, non-contiguous labels) is fed back in"
         b["relistings"] = "one adjacent transposition of the atom listing at a solver-chosen position (generators of S_n; the strata are closed under relabelling); bond listing reversed / rotated; bond orientation none / all / one solver-chosen bond flipped"
     return b
 
